@@ -139,6 +139,13 @@ def build_corpus(ctx, exe):
             glines.append("gen lzip %d %s" % (v, vlib.hexs(s))); gmeta.append(("lz", "gen-lzip-v%d-s%d" % (v, si), s))
         for v in (rng.sample(range(24), 2 if huge else 5 if big else 12)):
             glines.append("gen raw %d %s" % (v, vlib.hexs(s))); gmeta.append(("raw:%d" % v, "gen-raw-c%d-s%d" % (v, si), s))
+        # valid raw streams made WITH decoder-relevant options: preset dictionaries of every size class (the samples that
+        # contain the preset's text reference it), other lc/lp/pb, other dictionary sizes
+        for _ in range(1 if huge else 3 if big else 8):
+            v = rng.choice((0, 1, 2, 3, 4, 5, 7, 10, 12, 22, 23))
+            mods = rng.choice((1, 2, 3, 4, 5, 3, 4)) | (rng.choice((0, 0, rng.randrange(1, 76))) << 8) | (rng.choice((0, 4, 6, 7)) << 16)
+            glines.append("gen raw %d %s" % (v | (mods << 8), vlib.hexs(s)))
+            gmeta.append(("raw:%d:%d" % (v, mods), "gen-raw-c%d-m%d-s%d" % (v, mods, si), s))
         glines.append("gen micro 0 %s" % vlib.hexs(s)); gmeta.append(("micro", "gen-micro-s%d" % si, s))
         for v in rng.sample(range(60), 1 if huge else 3 if big else 6):
             glines.append("gen block %d %s" % (v, vlib.hexs(s))); gmeta.append(("block:%d" % (v % 4), "gen-block-v%d-s%d" % (v, si), s))
@@ -230,11 +237,15 @@ def op_line(rng, ep, data, fmt=None, dual=True):
         p[3] = rng.choice((0, 1, 4096, 65536, 1 << 20, 0xFFFFFFFF))
     elif ep in ("raw", "rbuf"):
         if fmt and fmt.startswith("raw:") and rng.random() < 0.7:
-            p[0] = int(fmt[4:])
+            p[0], p[3] = raw_tag(fmt)
+            if rng.random() < 0.3:
+                p[3] = raw_mods(rng)
         elif fmt == "lzma" and rng.random() < 0.5:
             p[0] = 3
+            p[3] = raw_mods(rng)
         else:
             p[0] = rng.randrange(29)
+            p[3] = raw_mods(rng)
         p[1] = rng.choice((0, 1, 100, 5000, U64, len(data)))
         if ep == "rbuf":
             p[2] = rng.choice((0, 0, 0, 1, 2, 14, 101, 4097))
@@ -286,7 +297,7 @@ def benign_ops(ctx, corpus, plain):
             elif fmt == "lz":
                 out.append((ln("lzip", (0, U64, 0, 0)), 1))
             elif fmt.startswith("raw:") and name in plain:
-                out.append((ln("raw", (int(fmt[4:]), len(plain[name]), 0, 0)), 1))
+                out.append((ln("raw", (raw_tag(fmt)[0], len(plain[name]), 0, raw_tag(fmt)[1])), 1))
             elif fmt == "micro" and name in plain:
                 out.append((ln("micro", (0, len(plain[name]), 1, 4096)), 1))
             elif fmt.startswith("block:") and name in plain:
@@ -298,6 +309,23 @@ def benign_ops(ctx, corpus, plain):
                 out.append((ln("index", (0, U64, 0, 0)), 1))
                 out.append((ln("ibuf", (0, U64, 0, 0)), 0))
     return out
+
+
+def raw_tag(fmt):
+    """'raw:<chain>[:<mods>]' -> (chain, mods)"""
+    t = fmt.split(":")
+    return int(t[1]), (int(t[2]) if len(t) > 2 else 0)
+
+
+def raw_mods(rng):
+    """Decoder-side option modifiers of harness c04_chain_mods: preset dictionary | lc/lp/pb << 8 | dict size << 16 | ext_flags << 24."""
+    if rng.random() < 0.4:
+        return 0
+    pm = rng.choice((0, 1, 2, 3, 4, 5, 2, 3))
+    lm = rng.choice((0, 0, rng.randrange(1, 76)))
+    dm = rng.choice((0, 0, 0, rng.randrange(1, 9)))
+    em = rng.choice((0, 0, 0, 1, 2, 3))
+    return pm | (lm << 8) | (dm << 16) | (em << 24)
 
 
 def native_eps(fmt):
@@ -332,6 +360,28 @@ def gen_ops(ctx, corpus, target):
             for ep in sorted(set(eps)):
                 for _ in range(reps):
                     emit(ep, data, fmt, "intact")
+    # 1c. raw LZMA2 decoders with and without a preset dictionary x every kind of FIRST chunk (LZMA chunk without properties
+    #     with/without state reset = must be LZMA_DATA_ERROR; with properties; uncompressed with/without dictionary reset; end)
+    for chain in (0, 1, 2, 10, 12):
+        for pm in (0, 1, 2, 3, 4, 5):
+            for ctrl in (0x80, 0x9F, 0xA0, 0xBF, 0xC0, 0xDF, 0xE0, 0xFF, 0x01, 0x02, 0x00, 0x03):
+                for _ in range(1 if quick else 3):
+                    pay = L.rc_noise(rng, rng.choice((5, 30, 200)))
+                    if ctrl >= 0x80:
+                        chunk = bytes([ctrl]) + bytes([rng.randrange(256), rng.randrange(256)]) + (len(pay) - 1).to_bytes(2, "big")
+                        if ctrl >= 0xC0:
+                            chunk += bytes([rng.choice((0x5D, 0, 44, 224, 100))])
+                        chunk += pay
+                    elif ctrl in (1, 2):
+                        chunk = bytes([ctrl]) + (len(pay) - 1).to_bytes(2, "big") + pay
+                    else:
+                        chunk = bytes([ctrl])
+                    data = chunk + (L.lzma2_chunks(rng) if rng.random() < 0.5 else b"\x00")
+                    for ep in ("raw", "rbuf"):
+                        lines.append("run2 %s %d %d %d %d %d %s" % (ep, rng.getrandbits(48), chain, 0,
+                                                                    0, pm | (rng.choice((0, 0, rng.randrange(1, 76))) << 8), vlib.hexs(data)))
+                        ctx.count("ep:" + ep)
+                        ctx.count("input:lzma2-first-chunk-matrix")
     # 1b. Block entry points: lzma_block.version 0 and 1 x ignore_check x the Block's own / None / reserved / other Check IDs
     for fmt in fmts:
         if not fmt.startswith("block:"):
